@@ -51,7 +51,9 @@ func (c *Ctx) OK(rule, key, site, detail string) { c.add(rule, key, site, "disch
 // Triv records a discharged obligation whose decision inspected nothing
 // beyond the absence of a construct (e.g. "no row ⇒ rejected"); it is not
 // counted as non-trivial in the evidence.
-func (c *Ctx) Triv(rule, key, site, detail string) { c.add(rule, key, site, "discharged", detail, false) }
+func (c *Ctx) Triv(rule, key, site, detail string) {
+	c.add(rule, key, site, "discharged", detail, false)
+}
 
 // Bad records a violated obligation.
 func (c *Ctx) Bad(rule, key, site, detail string) { c.add(rule, key, site, "violated", detail, true) }
